@@ -192,13 +192,27 @@ def solve_one(job):
             if r == 'unsat':
                 res.update(status='unsat', backend=ver + ' (quantifier-free relaxation)', time=time.time() - t0)
                 return res
+        em = lambda seed: {'smt.mbqi': False, 'smt.auto_config': False, 'smt.random_seed': seed}
         if 'forall' in smt2:
             # E-matching only: fails fast when the triggers do not lead to a proof (never answers sat)
             # (several seeds: trigger-based proofs are quick when they succeed but depend on the instantiation order)
             for seed in (0, 1, 2, 3):
-                r2, _, _ = _z3_try(smt2, max(2000, min(4000, timeout // 3)), {'smt.mbqi': False, 'smt.auto_config': False, 'smt.random_seed': seed}, False)
+                r2, _, _ = _z3_try(smt2, max(1500, min(4000, timeout // 4)), em(seed), False)
                 if r2 == 'unsat':
                     res.update(status='unsat', backend=ver + ' (e-matching only)', time=time.time() - t0)
+                    return res
+        if timeout >= RETRY_MIN_BUDGET:
+            # cvc5 early with a short budget: it often decides at once what z3's default strategy times out on
+            r3 = run_cli('cvc5', smt2, min(10000, timeout // 3))
+            if r3 == 'unsat':
+                res.update(status='unsat', backend='cvc5-1.0.3', time=time.time() - t0)
+                return res
+        if 'forall' in smt2 and timeout >= RETRY_MIN_BUDGET:
+            # E-matching again with a longer budget, before the (slow, rarely successful on these) default strategy
+            for seed in (0, 1, 2):
+                r2, _, _ = _z3_try(smt2, min(10000, timeout // 3), em(seed), False)
+                if r2 == 'unsat':
+                    res.update(status='unsat', backend=ver + ' (e-matching only)', time=time.time() - t0, reason='')
                     return res
         r, model, reason = _z3_try(smt2, timeout, {}, want_model)
         res.update(status=r, model=model, reason=reason)
@@ -320,7 +334,7 @@ def hard_limit(job):
     if job[0] == 'retry':
         return job[5] / 1000.0 + 30
     # portfolio: relaxed 3s + full T + e-matching T/2 + cvc5 T + z3old T (+ process start-up), then slack
-    return 12 + 16 + job[2] / 1000.0 * 3.2 + 25
+    return 12 + 16 + job[2] / 1000.0 * 5.6 + 25
 
 
 RETRY_MIN_BUDGET = 10000       # VCs with a shorter budget were already refuted concretely (refuter-first): no second round
